@@ -498,7 +498,7 @@ func (p *Prover) resultLemmas(fn *ssa.Function) []lemmaT {
 	for i, pr := range fn.Params {
 		switch {
 		case hasLen(pr.Type()):
-			for _, k := range []int64{0, -1} {
+			for _, k := range []int64{0, -1, -2} {
 				cands = append(cands, lemmaT{Upper: true, Param: i, IsLen: true, C: k})
 			}
 		case isIntType(pr.Type()):
@@ -679,6 +679,16 @@ func (fc *factCtx) defineLen(t lenTerm) {
 		}
 	case *ssa.Extract:
 		fc.defineExtract(v, self, true)
+	case *ssa.Index:
+		// an element of an array literal loaded by value: t = *alloc; t[i]
+		if ld, ok := v.X.(*ssa.UnOp); ok && ld.Op == token.MUL {
+			if al, isAl := ld.X.(*ssa.Alloc); isAl {
+				if lo, hi, okL := fc.p.c.arrayLiteralLens(al); okL {
+					fc.le(leExpr(constLin(lo), self))
+					fc.le(leExpr(self, constLin(hi)))
+				}
+			}
+		}
 	}
 }
 
@@ -974,6 +984,13 @@ func (c *Ctx) constTableLens(v *ssa.UnOp) (int64, int64, bool) {
 	if al == nil {
 		return 0, 0, false
 	}
+	return c.arrayLiteralLens(al)
+}
+
+// arrayLiteralLens: al is an array allocation all of whose element stores are
+// string constants and which is otherwise only read (indexed, sliced, loaded
+// whole): the minimum and maximum element length.
+func (c *Ctx) arrayLiteralLens(al *ssa.Alloc) (int64, int64, bool) {
 	if _, ok := arrayLen(al.Type()); !ok {
 		return 0, 0, false
 	}
@@ -1008,6 +1025,10 @@ func (c *Ctx) constTableLens(v *ssa.UnOp) (int64, int64, bool) {
 				}
 			}
 		case *ssa.Slice, *ssa.DebugRef:
+		case *ssa.UnOp:
+			if r.Op != token.MUL {
+				okAll = false
+			} // the whole array loaded by value (range over an array literal)
 		default:
 			okAll = false
 		}
